@@ -56,6 +56,10 @@ func Prop() *core.Prop {
 		// consumers that close an iterator before its end (tracked history query: also while a result is in flight)
 		// the application closes an IBB stream and that Close fails; the peer goes on naming the stream
 		"ibb_local_close_failed", "ibb_packets_answered_after_failed_local_close",
+		// a stream opened to a listener nobody accepts from, released by the application closing the listener
+		"ibb_second_listener", "stanza_left_waiting_for_the_application", "ibb_unaccepting_listener_closed",
+		// error payloads with several <text/> children (empty first, filled later), shuffled children, 0 or several conditions
+		"reply_err-texts", "reply_err-first-text-empty", "reply_err-shuffled", "reply_err-conditions-not-one",
 		"history_iter_closed_early", "history_iter_closed_early_with_result_in_flight", "history_iter_early_close_returned", "iter_closed_early"}
 	for _, h := range helpers {
 		req = append(req, "helper_value:"+h.name)
@@ -67,7 +71,7 @@ func Prop() *core.Prop {
 		ID:    "C09",
 		Level: core.Exploration,
 		Race:  os.Getenv("C09_RACE") != "0", // race detector on (it found the history iterator's shared stream); C09_RACE=0 turns it off
-		Rule:  "case i is workload 1 (20 of every 23) or workload 2 (3 of every 23). Workload 1: grammar rule i mod 26 (one per handler namespace plus plain and stream-level material) gives canonical stanzas and application actions (tracked history query, receipt-requesting send, MUC join/leave, outgoing IBB stream); from the second round on 1-3 structural mutations (22 kinds) or a byte-level mutation (6 kinds) hit the rule's stanzas, from the third round canonical stanzas of other rules are put before/after; a sentinel ping follows every peer write; delivery is step-by-step or in one burst; the input ends with a closing tag or a bare EOF. In one case of eight (from the second round) the application calls Session.Close at a PRNG-chosen point and the peer keeps sending (with or without sentinels) before it ends the stream; a third of the replies to application calls (MUC join/leave, receipts, ibb.Open, tracked history query) are delivered in 2-3 pieces cut at PRNG-chosen offsets (half of the time right after the start tag) with the call's context cancelled before, between or after the pieces. A third of the tracked history consumers close their iterator after 0-2 results, waiting (bounded) until a further result is in flight; no consumer ever just stops reading without closing. Workload 2 (a quarter of the cases from the second round: iterator-style helpers are closed after 0-2 items without reading the rest): helper i mod 46 against a peer that answers its k-th request with a canonical / error / mutated / byte-mutated / unroutable reply, 40% of them (from the second round) delivered in pieces with the helper's context cancelled before / between / after the pieces. Signature = (rule, mutation kinds, Serve outcome) or (helper, reply classes, helper outcome).",
+		Rule:  "case i is workload 1 (20 of every 23) or workload 2 (3 of every 23). Workload 1: grammar rule i mod 27 (one per handler namespace plus plain and stream-level material) gives canonical stanzas and application actions (tracked history query, receipt-requesting send, MUC join/leave, outgoing IBB stream); from the second round on 1-3 structural mutations (22 kinds) or a byte-level mutation (6 kinds) hit the rule's stanzas, from the third round canonical stanzas of other rules are put before/after; a sentinel ping follows every peer write; delivery is step-by-step or in one burst; the input ends with a closing tag or a bare EOF. In one case of eight (from the second round) the application calls Session.Close at a PRNG-chosen point and the peer keeps sending (with or without sentinels) before it ends the stream; a third of the replies to application calls (MUC join/leave, receipts, ibb.Open, tracked history query) are delivered in 2-3 pieces cut at PRNG-chosen offsets (half of the time right after the start tag) with the call's context cancelled before, between or after the pieces. A third of the tracked history consumers close their iterator after 0-2 results, waiting (bounded) until a further result is in flight; no consumer ever just stops reading without closing. Workload 2 (a quarter of the cases from the second round: iterator-style helpers are closed after 0-2 items without reading the rest): helper i mod 46 against a peer that answers its k-th request with a canonical / error / mutated / byte-mutated / unroutable reply, 40% of them (from the second round) delivered in pieces with the helper's context cancelled before / between / after the pieces. Signature = (rule, mutation kinds, Serve outcome) or (helper, reply classes, helper outcome).",
 		Assumptions: []string{
 			"the application side is cooperative: it accepts and drains IBB streams, consumes iterators, never blocks in a callback, cancels its contexts once Serve has returned",
 			"the tracked-history consumer reads every token of Iter.Current() in a third of the cases (on another goroutine than Serve, as the API intends)",
